@@ -108,6 +108,50 @@ pub fn gate_operand(o: &ast::GateOperand) -> R {
     }
 }
 
+/// Alternative accessors of the same constituents must agree with the ones the S-expression is
+/// built from: (accessor, what it returned, what the role holds).
+pub fn alternative_accessor_findings(root: &oq3_syntax::SyntaxNode) -> Vec<(String, String, String)> {
+    let txt = |e: Option<ast::Expr>| e.map(|e| e.syntax().text().to_string()).unwrap_or_else(|| "<none>".into());
+    let mut out = Vec::new();
+    for n in root.descendants() {
+        if let Some(r) = ast::RangeExpr::cast(n.clone()) {
+            let (a, s, b) = r.start_step_stop();
+            for (name, got, want) in [("RangeExpr::thestart", txt(r.thestart()), txt(a)), ("RangeExpr::step", txt(r.step()), txt(s)), ("RangeExpr::stop", txt(r.stop()), txt(b))] {
+                if got != want {
+                    out.push((name.to_string(), got, want));
+                }
+            }
+        }
+        if let Some(b) = ast::BinExpr::cast(n.clone()) {
+            let (l, r) = b.sub_exprs();
+            if txt(l.clone()) != txt(b.lhs()) || txt(r.clone()) != txt(b.rhs()) {
+                out.push(("BinExpr::sub_exprs".into(), format!("({}, {})", txt(l), txt(r)), format!("({}, {})", txt(b.lhs()), txt(b.rhs()))));
+            }
+            let d = b.op_details().map(|(t, k)| format!("{} {:?}", t.text(), k));
+            let w = match (b.op_token(), b.op_kind()) {
+                (Some(t), Some(k)) => Some(format!("{} {:?}", t.text(), k)),
+                _ => None,
+            };
+            if d != w {
+                out.push(("BinExpr::op_details".into(), format!("{:?}", d), format!("{:?}", w)));
+            }
+        }
+        if let Some(i) = ast::IfStmt::cast(n.clone()) {
+            let t1 = i.then_branch_block().map(|b| b.syntax().text().to_string()).or(i.then_branch_stmt().map(|s| s.syntax().text().to_string()));
+            let node1 = i.syntax().children().nth(1).map(|c| c.text().to_string());
+            if t1 != node1 {
+                out.push(("IfStmt::then_branch_*".into(), format!("{:?}", t1), format!("{:?}", node1)));
+            }
+            let t2 = i.else_branch_block().map(|b| b.syntax().text().to_string()).or(i.else_branch_stmt().map(|s| s.syntax().text().to_string()));
+            let node2 = i.syntax().children().nth(2).map(|c| c.text().to_string());
+            if t2 != node2 {
+                out.push(("IfStmt::else_branch_*".into(), format!("{:?}", t2), format!("{:?}", node2)));
+            }
+        }
+    }
+    out
+}
+
 fn range(r: &ast::RangeExpr) -> R {
     let (a, s, b) = r.start_step_stop();
     let a = opt_expr(a, "range start")?;
